@@ -335,8 +335,20 @@ class Taint:
     def rvalue_tainted(self, rv):
         k = rv["k"]
         if k in ("ref", "rawptr"):
+            pl = rv["place"]
+            # a reference to a whole struct (`&*self`, as left behind by an inlined helper or passed
+            # to a method) reads none of its fields: reads through it are resolved by points-to, and a
+            # call that receives it is judged through the referents (see the call transfer)
+            if all(e["k"] == "deref" for e in pl["proj"]) and self.p is not None:
+                ty = self.b.local_ty(pl["local"]).lstrip("&").strip()
+                if ty.startswith("mut "):
+                    ty = ty[4:]
+                ty = ty.split("<")[0]
+                if ty in getattr(self.p, "adts", {}) and self.pts.get(pl["local"], True):
+                    tgs = self._targets(pl)
+                    return any((tg[0], None) in self.T for tg in tgs)
             # taking a reference to (part of) a slice does not read its contents
-            return self.place_tainted(rv["place"], shape_only=True)
+            return self.place_tainted(pl, shape_only=True)
         if k in ("copyforderef", "discriminant"):
             return self.place_tainted(rv["place"])
         if k == "aggregate" and rv["kind"]["k"] == "closure":
